@@ -7,9 +7,11 @@
     htpasswd file, the history of the file and of the refresh goroutine before a request
     (case CReload, replayed on Model/BasicReload.v); and, for a SET of basic schemes behind one
     HTTPProxy, the history of requests on the routes of all of them and of their files before a
-    request (case CSchemes, replayed on Model/BasicSchemes.v). *)
+    request (case CSchemes, replayed on Model/BasicSchemes.v); and whole requests - any method, any
+    header map - against a route with access rules and an auth option (case CGate,
+    Model/GateRequest.v). *)
 From Coq Require Import String List NArith Bool.
-From Fabio Require Import Lib.Outcome Lib.Bytes Lib.Verdict Model.Access Model.BasicReload Model.BasicSchemes.
+From Fabio Require Import Lib.Outcome Lib.Bytes Lib.Verdict Model.Access Model.BasicReload Model.BasicSchemes Model.GateRequest.
 Import ListNotations.
 Local Open Scope N_scope.
 
@@ -191,7 +193,23 @@ Inductive case :=
    this request is routed to; [cr] = its request.BasicAuth(); observables as in CHttp plus
    [challenge] = the realm announced in the WWW-Authenticate header of the answer, if any *)
 | CSchemes (redirect : N) (cfg : schemes_cfg) (hist : list set_step) (auth : str) (cr : bcreds)
-           (status hits : N) (has_location : bool) (challenge : option str).
+           (status hits : N) (has_location : bool) (challenge : option str)
+(* the real HTTPProxy.ServeHTTP on a WHOLE request: [q] = r.Method, r.RemoteAddr and the header map
+   exactly as the handler received it (canonical keys, every key once, all field values); the route
+   comes out of the real Table.Lookup ([present] = it returned a target) with opts allow / deny /
+   auth=<auth> / redirect=<redirect>; p.AuthSchemes = the real auth.LoadAuthSchemes on [cfg] (static
+   htpasswd files); [basic] = the real request.BasicAuth() of a request carrying each Authorization
+   value that occurs; [split], e_ip, [sem] as in CHttp, the address strings being the peer and every
+   element of every X-Forwarded-For value; [ref_admit] = the harness's netip decision over the peer
+   and the X-Forwarded-For lines it GENERATED; [ref_auth] = by construction of the request: the
+   route has no auth option, or the generator put a user line of the route's own scheme's file into
+   the first Authorization field; observables: status, round trips of the proxy's Transport,
+   connections the loopback listener behind the target accepted (the raw dial of the websocket
+   path), Location set, the realm of the WWW-Authenticate header if any *)
+| CGate (e : env) (present : bool) (redirect : N) (auth : str) (cfg : schemes_cfg)
+        (basic : list (str * bcreds)) (q : hrequest) (split : option str)
+        (sem : list (str * option (bool * N))) (ref_admit ref_auth : bool)
+        (status rt_hits dials : N) (has_location : bool) (challenge : option str).
 
 Definition check_case (c : case) : N :=
   match c with
@@ -386,4 +404,76 @@ Definition check_case (c : case) : N :=
                   && str_nodup (map fst cfg) in
       if negb sane then v_disagree else
       verdict same spec None true
+  | CGate e present redirect auth cfg basic q split sem ref_admit ref_auth status rt_hits dials has_location challenge =>
+      let '(mr, mok) := m_rules e in
+      let pip := oracle (e_ip e) in
+      let remote := q_remote q in
+      let sh := fun s => if beq s remote then split else None in
+      let pba := fun a => match lookup basic a with Some c => c | None => no_bcreds end in
+      let ss := sboot cfg in
+      let t := if present then Some {| t_rules := mr; t_auth := auth; t_redirect := redirect |} else None in
+      let ev := serve_http_request pip sh pba t (set_table ss) q in
+      let m_chal := request_challenge pip sh pba t ss q in
+      let ws := is_websocket q in
+      (* (status, round trips, dials, Location); websocket: the upstream is dialled, the answer goes
+         over the hijacked connection, not the recorder *)
+      let m_obs := match ev with
+                   | [ERespond s] => (s, 0, 0, false)
+                   | [ERedirect c] => (c, 0, 0, true)
+                   | [EUpstream] => if ws then (0, 0, 1, false) else (200, 1, 0, false)
+                   | _ => (0, 99, 99, false)
+                   end in
+      let '(m_status, m_rt, m_dials, m_loc) := m_obs in
+      let ws_dialled := ws && (m_dials =? 1) in
+      let same := (ws_dialled || (m_status =? status)) && (m_rt =? rt_hits) && (m_dials =? dials)
+                  && Bool.eqb m_loc has_location && opt_eqb beq m_chal challenge in
+      (* every address string the request carries, read off the header map *)
+      let xff := request_xff q in
+      let strs := match split with
+                  | None => []
+                  | Some host => host :: flat_map (fun v => map trim_space (split_byte v 44)) xff
+                  end in
+      let pipz := fun s => pip (strip_zone s) in
+      let addrs := flat_map (fun s => match oracle sem s with Some a => [a] | None => [] end) strs in
+      let admitted_ref := forallb (ref_admits (e_ref e)) addrs in
+      (* the credentials of the request: what net/http reads from the first Authorization value *)
+      let cr := request_creds pba q in
+      let auth_ref := is_nil auth ||
+                      match sget cfg auth with
+                      | Some k => file_accepts_b (bc_file k) cr
+                      | None => false
+                      end in
+      let strict := mok && forallb (fun s => is_some (pipz s) && is_some (oracle sem s)) strs in
+      (* THE PROPERTY on the implementation's observables, as for CHttp: an upstream contact (round
+         trip or dial) or a redirect answer => admitted and authorised; not admitted => 403 (or 401
+         when the scheme rejects too); admitted, not authorised => 401.  The method and the other
+         headers do not occur in it. *)
+      let contacted := negb (rt_hits =? 0) || negb (dials =? 0) in
+      let redirected := negb (redirect =? 0) && (status =? redirect) && has_location in
+      let spec := if negb present then negb contacted else
+                  match split with
+                  | None => negb contacted && (negb redirected || auth_ref)
+                  | Some _ =>
+                      if contacted || redirected then admitted_ref && auth_ref
+                      else if negb admitted_ref then (status =? 403) || (negb auth_ref && (status =? 401))
+                      else if negb auth_ref then (status =? 401) || (negb strict && (status =? 403))
+                      else true
+                  end in
+      let a := h_get (q_headers q) k_authorization in
+      let sane := rule_queries_ok e && ref_matches e && Bool.eqb admitted_ref ref_admit
+                  && Bool.eqb auth_ref ref_auth
+                  && forallb (fun s => covered (e_ip e) (strip_zone s)) strs && forallb (covered sem) strs
+                  && forallb (fun s => match oracle sem s with
+                                       | Some a => match pipz s with
+                                                   | Some ip => canon_eqb a (canon ip)
+                                                   | None => false
+                                                   end
+                                       | None => true
+                                       end) strs
+                  (* a Go map has every key once; every Authorization value read was asked about *)
+                  && str_nodup (map fst (q_headers q)) && str_nodup (map fst cfg)
+                  && (is_nil a || covered basic a)
+                  && forallb (fun k => str_nodup (users_of (bc_file (snd k)))) cfg in
+      if negb sane then v_disagree else
+      verdict same spec None (present && (negb (rules_empty mr) || negb mok || negb (is_nil auth)))
   end.
